@@ -170,7 +170,7 @@ def audit(prop):
     cur = None
     axioms = {}
     text = out.replace('\n  ', ' ')
-    for m in re.finditer(r"'([^']+)' (depends on axioms: \[([^\]]*)\]|does not depend on any axioms)", text):
+    for m in re.finditer(r"'([^\n]*?)' (depends on axioms: \[([^\]]*)\]|does not depend on any axioms)", text):
         name = m.group(1)
         ax = [a.strip() for a in (m.group(3) or '').split(',') if a.strip()]
         axioms[name] = ax
@@ -261,7 +261,7 @@ def run_chunk(idx, scens, timeout):
     return res
 
 
-PROTO = re.compile(r'^(ok|alive|dead|switched|noswitch|bad-op|err |found |deleted |notfound|n=|list|counts |#|panic |skipped |crash|trace |snap |bits |some |none|val )')
+PROTO = re.compile(r'^(ok|sweep |alive|dead|switched|noswitch|bad-op|err |found |deleted |notfound|n=|list|counts |#|panic |skipped |crash|trace |snap |bits |some |none|val )')
 
 
 def is_protocol_line(l):
@@ -326,6 +326,8 @@ def judge(res, pdef):
         if verdict:
             findings.append(Finding('violation', res, i, verdict))
             break
+        if c in ('dmgsweep', 'crashsweep', 'flipsweep', 'faultsweep', 'cancelsweep') and impl.startswith('sweep ok'):
+            impl = 'sweep ok'      # the count of damaged copies is reported, not compared
         if impl != model:
             if is_p:
                 findings.append(Finding('model-disagreement', res, i, f'impl=[{impl}] model=[{model}] oracle=[{orc}]'))
